@@ -11,19 +11,14 @@ for name in names:
     if not os.path.exists(os.path.join(HERE, 'contracts', prop + '.py')) and not os.path.exists(os.path.join(HERE, 'native', prop + '.py')):
         continue
     patch = os.path.join(d, 'patch.rebased.diff') if os.path.exists(os.path.join(d, 'patch.rebased.diff')) else os.path.join(d, 'patch.diff')
-    assert subprocess.run(['git', '-C', '/repo', 'status', '--porcelain', '--untracked-files=no'], capture_output=True, text=True).stdout.strip() == '', '/repo not clean'
-    r = subprocess.run(['git', '-C', '/repo', 'apply', patch], capture_output=True, text=True)
-    if r.returncode != 0:
-        print(name, 'PATCH DOES NOT APPLY', r.stderr[:200]); continue
-    try:
-        out = subprocess.run([os.path.join(HERE, 'check'), prop, '--quick'], capture_output=True, text=True, cwd=HERE, timeout=3600)
-    finally:
-        subprocess.run(['git', '-C', '/repo', 'checkout', '--', '.'])
+    out = subprocess.run([os.path.join(HERE, 'tools', 'try_mutant.sh'), patch, prop], capture_output=True, text=True, cwd=HERE, timeout=3600)
     lines = out.stdout.splitlines()
     viol = [l for l in lines if l.startswith('VIOLATION')]
-    res = {'rc': out.returncode, 'violations': [re.sub(r'.*replay=', '', l) for l in viol][:12],
+    rc = [l for l in lines if l.startswith('rc=')]
+    res = {'rc': int(rc[-1][3:]) if rc else None, 'violations': [re.sub(r'.*replay=\S*/', '', l) for l in viol][:12],
            'undecided': [l for l in lines if l.startswith('UNDECIDED')][:6], 'out_of_reach': [l for l in lines if l.startswith('OUT-OF-REACH')][:6],
            'caught_by_proof_obligation': any('/%s-%s.' % (prop, prop) in l for l in viol),
-           'caught_by_bounded_contract': any('/%s-%s.' % (prop, prop) not in l for l in viol), 'summary': lines[-1] if lines else ''}
+           'caught_by_bounded_contract': any('/%s-%s.' % (prop, prop) not in l for l in viol),
+           'summary': next((l for l in lines if ' quick: ' in l), '')}
     json.dump(res, open(os.path.join(d, 'result.json'), 'w'), indent=1)
-    print(name, 'rc=%d' % out.returncode, 'proof' if res['caught_by_proof_obligation'] else '-', 'bounded' if res['caught_by_bounded_contract'] else '-')
+    print(name, 'rc=%s' % res['rc'], 'proof' if res['caught_by_proof_obligation'] else '-', 'bounded' if res['caught_by_bounded_contract'] else '-', flush=True)
